@@ -10,7 +10,7 @@ def observe(case):
     for s in tr.steps:
         if 'ts' in s:
             ts = s['ts']
-    trials = [(key, k, tr.lens[key], tr.delays[key][0]) for (key, k, dur, _) in tr.added]
+    trials = [(key, k, tr.lens[key], tr.delays[key][0]) for (key, k, dur, *_) in tr.added]
     return ts, trials, tr
 
 
@@ -50,7 +50,10 @@ class C04(Spec):
     RULE = ('histories over {pop n, pause m, pause(), resume m2, resume()} on every policy, ending with a drain; pause '
             'positions drawn from the structurally distinct positions of the run so far (trial start, mid-waveform, '
             'waveform end, inside the delay, delay end, earlier pause points, the clock) -1/0/+1, occasionally in the '
-            'future; plus a stream pausing exactly at trial ends (t = (k+n)/fs) across the fs list. '
+            'future; plus a stream pausing exactly at trial ends (t = (k+n)/fs) across the fs list; every third history '
+            'pauses and resumes the queue again after it ran dry; an odd-order stream (pause before anything was generated, '
+            'pause() then pause(t), two resumes, resume without pause, resume beyond 2^31 samples, the same pause twice, '
+            'single-sample requests around a pause); half of the histories re-spelled by the caller (see C02). '
             'Non-trivial = at least one trial removed.')
     SEARCH_SECONDS = {'quick': 20, 'thorough': 240}
 
@@ -102,8 +105,64 @@ class C04(Spec):
             if rng.random() < 0.25:
                 # a declared duration longer than the waveform: log entries may then overlap / end out of order
                 rng.choice(c['stims'])['xdur'] = rng.choice([1, 3, 10, 25])
+            if it % 2:
+                QC.spell(rng, c, p=1.0)
             c['ops'] = []
             c['ops'] = self.history(rng, c, rng.randint(1, 4))
+            if it % 3 == 0:
+                # re-use after completion: pause a queue that has run dry, resume, drain again
+                ts, trials, _ = observe(c)
+                m = rng.choice(pause_candidates(ts, trials, [], rng))
+                c['ops'] = c['ops'] + [['pause', m], ['pop', rng.choice([1, 4])],
+                                       ['resume', rng.choice([None, m, m + 5, ts + 3])],
+                                       ['pop', drain_size(c)], ['pop', 3]]
+            yield c
+        # legal but unusual orders: pause before anything was generated, pause() then pause(t), two resumes,
+        # resume without a pause, resume far beyond 2^31 samples
+        for it in range(60 if tier == 'quick' else 1200):
+            nst = rng.randint(1, 3)
+            c = {'kind': 'odd-order', 'fs': rng.choice(QC.FS_LIST)}
+            c.update(QC.policy_fields(rng.choice(QC.POLICIES), rng, nst))
+            c['t0'] = rng.choice([0, 0, 0.5, 1.2345])
+            c['stims'] = QC.rand_stims(rng, nst, max_len=9, max_trials=3)
+            if it % 2:
+                QC.spell(rng, c, p=1.0)
+            ops = []
+            shape = it % 6
+            if shape == 0:        # pause first
+                ops += [['pause', rng.choice([None, 0])], ['pop', rng.choice([1, 5])],
+                        ['resume', rng.choice([None, 0, 5, 9])]]
+            elif shape == 1:      # pause() then pause(t) then two resumes
+                ops += [['pop', rng.choice([3, 8, 20])], ['pause', None], ['pop', 2]]
+                ts, trials, _ = observe(dict(c, ops=ops))
+                m = rng.choice(pause_candidates(ts, trials, [], rng))
+                ops += [['pause', m], ['resume', rng.choice([None, m + 2])], ['resume', rng.choice([None, m + 4])]]
+            elif shape == 2:      # resume although never paused (the clock is moved, generation goes on)
+                ops += [['pop', rng.choice([3, 8, 20])]]
+                ts, _, _ = observe(dict(c, ops=ops))
+                ops += [['resume', rng.choice([None, ts, ts + 7])]]
+            elif shape == 3:      # resume far out: sample positions beyond 2^31
+                ops += [['pop', rng.choice([3, 8, 20])]]
+                ts, trials, _ = observe(dict(c, ops=ops))
+                m = rng.choice(pause_candidates(ts, trials, [], rng))
+                far = (1 << 31) + rng.choice([0, 1, 12345])
+                ops += [['pause', m], ['resume', far], ['pop', rng.choice([4, 30])]]
+                ts, trials, _ = observe(dict(c, ops=ops))
+                ops += [['pause', rng.choice([t for t in pause_candidates(ts, trials, [m], rng) if t >= far] or [ts])],
+                        ['resume', None]]
+            elif shape == 4:      # pause at the same point twice, pause at 0 after a lot was played
+                ops += [['pop', rng.choice([10, 30, 60])]]
+                ts, trials, _ = observe(dict(c, ops=ops))
+                m = rng.choice(pause_candidates(ts, trials, [], rng))
+                ops += [['pause', m], ['pause', m], ['resume', m], ['pop', rng.choice([5, 25])], ['pause', 0],
+                        ['resume', rng.choice([0, 3])]]
+            else:                 # single-sample requests around a pause
+                ops += [['pop', 1]] * rng.choice([2, 5])
+                ts, trials, _ = observe(dict(c, ops=ops))
+                m = rng.choice(pause_candidates(ts, trials, [], rng))
+                ops += [['pause', m], ['pop', 1], ['resume', None], ['pop', 1], ['pop', 1]]
+            ops += [['pop', drain_size(c)], ['pop', 7]]
+            c['ops'] = ops
             yield c
         # pauses exactly at trial ends, latest first, across sampling rates
         reps = 1 if tier == 'quick' else 6
@@ -228,7 +287,7 @@ class C04(Spec):
                 if op[0] == 'pause':
                     paused = True
                 elif op[0] == 'resume':
-                    if cut:
+                    if cut or resume_at is not None:     # (a second resume before any trial started moves the point)
                         resume_at = op[1] if op[1] is not None else s['ts']
                     paused, cut = False, False
             rem = s['rem']
@@ -265,7 +324,9 @@ class C04(Spec):
                     yield dict(c, ops=ops[:i] + [['pop', v]] + ops[i + 1:])
         for i in range(len(c['stims'])):
             if len(c['stims']) > 1:
-                yield dict(c, stims=c['stims'][:i] + c['stims'][i + 1:])
+                yield QC.drop_stim(c, i)
+        for c2 in QC.unspell_candidates(c):
+            yield c2
         for i, st in enumerate(c['stims']):
             for f, v in (('trials', st['trials'] - 1), ('len', st['len'] - 1)):
                 if v >= 1:
